@@ -130,7 +130,11 @@ impl SwiftField for Field25P {
         parse_swift_chars(&account, "Field 25P account")?;
 
         // Parse BIC (second line if present, otherwise might be concatenated)
-        let bic = if lines.len() > 1 {
+        let bic = if lines.len() > 2 {
+            return Err(ParseError::InvalidFormat {
+                message: "Field 25P has unexpected lines after the BIC".to_string(),
+            });
+        } else if lines.len() > 1 {
             parse_bic(lines[1])?
         } else {
             // Try to extract BIC from the end (last 8 or 11 characters)
